@@ -1,6 +1,6 @@
 (* Persist/WfProofs.v — load_wf (save_wf w d) = w for every well-formed workflow on every consistent database. *)
 From Coq Require Import List Bool NArith ZArith Arith Lia.
-From SF Require Import Base.Str DbCache.Model Persist.Model Persist.Proofs Persist.CfgModel Persist.CfgProofs Persist.WfModel.
+From SF Require Import Base.Str DbCache.Model Persist.Model Persist.Proofs Persist.CfgModel Persist.CfgProofs Persist.TreeModel Persist.TreeProofs Persist.WfModel.
 Import ListNotations.
 Local Open Scope string_scope. Local Open Scope list_scope.
 
@@ -294,7 +294,7 @@ Section OneWorkflow.
       (* the parameters of the step row *)
       assert (Hp : exists dp cfg1, step_params pidf wid s cfg = Some (dp, cfg1) /\ cext cfg cfg1 /\
                    forall cfgF, cext cfg1 cfgF -> load_kind tp cfgF wid dp = Some (s_kind s)).
-      { unfold step_params. destruct (s_kind s) as [|dp|lp c|cls|cls|conns|dc|b prefix dirs] eqn:Ek.
+      { unfold step_params. destruct (s_kind s) as [|dp|lp c|cls|cls|conns pkeys procs cmd|dc|b prefix dirs] eqn:Ek.
         - destruct (alookup "__size__" (s_out s)) as [pn|] eqn:El; [|discriminate].
           assert (Hm : mem pn names = true) by (apply (forallb_mem _ Hmo); apply (alookup_In_snd _ _ _ El)).
           rewrite (pidf_mem pn Hm). eexists _, cfg. split; [reflexivity|]. split; [apply cext_refl|]. intros cfgF _. simpl.
@@ -313,7 +313,8 @@ Section OneWorkflow.
         - destruct (alookup "__job__" (s_in s)) as [pn|] eqn:El; [|discriminate].
           assert (Hm : mem pn names = true) by (apply (forallb_mem _ Hmi); apply (alookup_In_snd _ _ _ El)).
           rewrite (pidf_mem pn Hm). eexists _, cfg. split; [reflexivity|]. split; [apply cext_refl|]. intros cfgF _. simpl.
-          destruct (port_row_name pn Hm) as [p [Hp' _]]. rewrite Hp'. reflexivity.
+          destruct (port_row_name pn Hm) as [p [Hp' _]]. rewrite Hp'.
+          rewrite trees_roundtrip. destruct cmd as [c0|]; simpl; [rewrite tree_roundtrip|]; reflexivity.
         - destruct (alookup (dp_name dc) (s_out s)) as [pn|] eqn:El; [|discriminate].
           assert (Hm : mem pn names = true) by (apply (forallb_mem _ Hmo); apply (alookup_In_snd _ _ _ El)).
           rewrite (pidf_mem pn Hm). eexists _, _. split; [reflexivity|]. split; [apply save_deploy_ext|].
